@@ -10,6 +10,14 @@ RUNS = {
         {"name": "K1-codec", "mode": "k1", "budget": (6500, 130000), "nontrivial": r"recv=msg:",
          "keyfn": "k1"},
     ],
+    "C11": [
+        {"name": "K6-chunk", "mode": "kchunk", "budget": (20000, 400000), "nontrivial": r"calls=\d+@\d+,", "keyfn": "generic"},
+        {"name": "K6-client-io", "mode": "kneg", "budget": (1500, 30000), "nontrivial": r"ok=1", "keyfn": "generic"},
+    ],
+    "C12": [
+        {"name": "K6-version", "mode": "kver", "budget": (3000, 60000), "nontrivial": r"ok=1|rmsize=[1-9]", "keyfn": "generic"},
+        {"name": "K6-negotiate", "mode": "kneg", "budget": (1500, 30000), "nontrivial": r"ok=1", "keyfn": "generic"},
+    ],
     "C02": [
         {"name": "K2-framing", "mode": "k2", "budget": (1500, 40000), "nontrivial": r"recv\d+=(msg|proto)", "keyfn": "k2"},
     ],
@@ -18,6 +26,38 @@ RUNS = {
 NOT_YET = {}
 
 PROPS = {
+    "C11": {
+        "level_text": "Proof: chunk() is modelled as the loop it is; Lean theorems give, for every chunk size >= 1, buffer length, offset and "
+                      "content: WriteAt against an accepting backend returns n = len(p) with exactly the ideal in-order contiguous chunks each "
+                      "within the payload limit; ReadAt delivers min(len p, |F|-off) bytes, reports io.EOF only when fewer than len(p) bytes "
+                      "were delivered and always when none were for a non-empty p; any backend obeying n <= requested keeps every request within "
+                      "the limit and the total within the buffer; the first short/failed chunk ends the call with its count and error.",
+        "level_note": "Trusted: Lean kernel; Client/Chunk.lean as hand-written model of chunk()/readAt()/writeAt() tied by K6 (exported chunk with "
+                      "scripted fn; real Client ReadAt/WriteAt against a scripted fake server with a byte-slice file, content compared byte by byte). "
+                      "Composition of the chunk writes into one splice is shown through chunks_shape (contiguous exact cover), the byte-level "
+                      "splice identity is checked by the harness only.",
+        "rule": "kchunk: chunk sizes {1,2,3,4,7,8,16,512,4096} x lengths incl. exact multiples +-1 x offsets up to 2^40 x scripted fn behaviours "
+                "(full, short, half, zero, error, error-with-partial, EOF) keyed by offset; kneg: real client vs fake server over a socketpair, "
+                "msize 154..8MiB lowered by the server, ReadAt/WriteAt lengths 0..3 payloads incl. multiples +-1, offsets at/after EOF. "
+                "Non-trivial: more than one chunk (kchunk) / negotiation succeeded (kneg).",
+        "assumptions": ["payload size >= 1 (guaranteed by WithMessageSize and by NewClient after the D3 fix)"],
+        "trusted_base": ["Client/Chunk.lean: hand-written model of chunk(), readAt EOF rule"],
+    },
+    "C12": {
+        "level_text": "Proof: tversion/parseVersion/versionString/NewClient's adoption are modelled in Client/Version.lean; Lean theorems: the reply is "
+                      "always an Rversion and is (0,'unknown') iff msize = 0 or the string is not a 9P2000.L version; otherwise msize = min(req,4MiB) "
+                      "and version = canonical(min(N,7)), which parses back to the same number for all 0..7; every '9P2000.L.Google.<decimal < 2^32>' "
+                      "is accepted with that number; NewClient adopts the reply's version and min(req, reply) msize with payload+largestFixed <= msize, "
+                      "and refuses non-9P2000.L replies.",
+        "level_note": "Trusted: Lean kernel; the hand-written model of strconv.ParseUint(s,10,32) and strings.Split; tie = K6-version (exported "
+                      "parseVersion/versionString on all string shapes, hand-built Tversion frames at a real Server over a socketpair) and K6-negotiate "
+                      "(real NewClient against a scripted fake server offering every (version, msize) shape).",
+        "rule": "kver: version strings of 12 shapes (canonical, leading zeros, overflow, signs, extra dots, other dialects, mutated, random bytes) x "
+                "msize from 20 boundary values and random 32-bit; kneg: requested msize x requested version 0..7 x offered msize (same, lower, "
+                "below largestFixed, higher, 0) x offered version (canonical <= requested, unknown, 9P2000.u, arbitrary). Non-trivial: accepted.",
+        "assumptions": ["I1: an overflowing numeral is not a 9P2000.L.Google.N version"],
+        "trusted_base": ["Client/Version.lean: hand-written model of version.go, tversion.handle, NewClient"],
+    },
     "C02": {
         "level_text": "Proof: recv1 is a total Lean function enumerating every return of Go's recv(); for any byte string: a bad size field "
                       "ends the connection after exactly 7 bytes, a well-delimited frame of any content is consumed exactly and its outcome "
